@@ -44,7 +44,15 @@ def handle (op : String) (j : Json) : Except String Json := do
     let d ← docOf j
     let addrs ← addrsOf j "addrs"
     pure (Json.mkObj [("model", outToJson (renameKeys (← keyOf j) d addrs))])
-  | "typed" => pure (typedToJson (eTypedValue (s2l (← getStr j "t"))))
+  | "typed" =>
+    -- `.str` = "the new node holds the supplied text"; for the two literal classes the answer also says what
+    -- `ast.literal_eval` makes of the text, so that the harness can compare `Nodes.typed_value` itself
+    let t := s2l (← getStr j "t")
+    if isQuotedLit t then
+      pure (Json.mkObj [("k", "str"), ("v", Json.str (String.ofList (quotedBody t)))])
+    else if isIntLookalike t then
+      pure (Json.mkObj [("k", "str"), ("lit", "int-lookalike")])
+    else pure (typedToJson (eTypedValue t))
   | "newscalar" =>
     let v ← scalarOfJson (← j.getObjVal? "v")
     let fmt ← fmtOfName (← getStr j "fmt")
